@@ -256,6 +256,10 @@ func w3Dedup(ps []*w3Princ) []*w3Princ {
 // tx builds a transaction paid by the payer (scope None) and witnessed by ps
 // (scope Global).
 func (w *w3World) tx(ps []*w3Princ, script []byte, sysFee int64, unscoped ...*w3Princ) *transaction.Transaction {
+	return w.txE(ps, nil, script, sysFee, unscoped...)
+}
+
+func (w *w3World) txE(ps, entry []*w3Princ, script []byte, sysFee int64, unscoped ...*w3Princ) *transaction.Transaction {
 	tx := transaction.New(script, 0)
 	tx.Nonce = neotest.Nonce()
 	tx.ValidUntilBlock = w.BC.BlockHeight() + 1
@@ -271,6 +275,10 @@ func (w *w3World) tx(ps []*w3Princ, script []byte, sysFee int64, unscoped ...*w3
 	}
 	for _, p := range unscoped {
 		tx.Signers = append(tx.Signers, transaction.Signer{Account: p.Hash, Scopes: transaction.None})
+		signers = append(signers, p.S)
+	}
+	for _, p := range w3Dedup(entry) {
+		tx.Signers = append(tx.Signers, transaction.Signer{Account: p.Hash, Scopes: transaction.CalledByEntry})
 		signers = append(signers, p.S)
 	}
 	neotest.AddNetworkFee(w.T, w.BC, tx, signers...)
@@ -503,6 +511,9 @@ func (w *w3World) setup() {
 	w.must(w.send([]*w3Princ{O, A}, w.H["nns"], "setAdmin", "c03.neofs", A.Hash), "setAdmin")
 	w.must(w.send([]*w3Princ{O}, w.H["nns"], "addRecord", "c03.neofs", int64(16), "rec0"), "addRecord")
 	w.must(w.send([]*w3Princ{O}, w.H["nns"], "addRecord", "xfer.neofs", int64(16), "keep"), "addRecord")
+	// a third-level zone whose owner (P) differs from the owner of the zone above (O)
+	Pp := w.princ("P")
+	w.must(w.send([]*w3Princ{O, Pp}, w.H["nns"], "register", "sub.c03.neofs", Pp.Hash, "ops@nspcc.ru", int64(3600), int64(600), year, int64(3600)), "register sub.c03.neofs")
 
 	// neofsid: one bound key; balance: one existing lock account
 	w.must(w.send(w.god(), w.H["neofsid"], "addKey", w3OwnerID(U.Hash), []any{w3Fill(33, 5)}), "addKey")
@@ -689,6 +700,10 @@ type w3Call struct {
 	Note     string
 	NotaryOf bool
 	thinSets bool // repeat / cross-replay call: fewer signer sets in the quick tier
+	// Related: principals that are legitimate for an ENCLOSING object (owners
+	// of the zones above an NNS name, ...) but not required by this call; they
+	// take part in the signer sets like the named ones.
+	Related []*w3Princ
 	// Refresh re-reads the state-dependent facts (NNS owner/admin) when the
 	// same arguments are sent again later.
 	Refresh func(w *w3World, c *w3Call)
@@ -820,6 +835,10 @@ type w3SigSet struct {
 	// Unscoped signers sign the transaction with scope None: their signature
 	// is valid but covers no contract call, so they are no witnesses.
 	Unscoped []*w3Princ
+	// Entry signers sign with scope CalledByEntry and the call is made through
+	// the forwarding helper contract: the scope covers the helper only, not the
+	// nested call, so they are no witnesses for the callee either.
+	Entry []*w3Princ
 }
 
 func (w *w3World) signerSets(call *w3Call, rng *rand.Rand, nRandom int) []w3SigSet {
@@ -859,7 +878,7 @@ func (w *w3World) signerSets(call *w3Call, rng *rand.Rand, nRandom int) []w3SigS
 	}
 	sets = append(sets, w3SigSet{Name: "alphabet+committee signing with scope None", Unscoped: w3Dedup([]*w3Princ{w.princ("alpha"), w.princ("committee")})})
 	var named []*w3Princ
-	for _, p := range append(append([]*w3Princ{}, call.Princ...), call.Owner, call.Admin) {
+	for _, p := range append(append(append([]*w3Princ{}, call.Princ...), call.Owner, call.Admin), call.Related...) {
 		if p != nil && p.S != nil {
 			named = append(named, p)
 		}
@@ -869,6 +888,28 @@ func (w *w3World) signerSets(call *w3Call, rng *rand.Rand, nRandom int) []w3SigS
 		add("named:"+p.Name, p)
 		add("alphabet+named:"+p.Name, w.princ("alpha"), p)
 		add("committee-majority+named:"+p.Name, w.princ("committee"), p)
+	}
+	// the named principal signs, but with a scope that covers nothing (None):
+	// alone, and next to everybody else who is required
+	for _, p := range named {
+		var others []*w3Princ
+		for _, q := range named {
+			if q.Hash != p.Hash {
+				others = append(others, q)
+			}
+		}
+		sets = append(sets, w3SigSet{Name: "named:" + p.Name + " with scope None", Unscoped: []*w3Princ{p}})
+		sets = append(sets, w3SigSet{Name: "alphabet+committee+other named, named:" + p.Name + " with scope None",
+			Ps: w3Dedup(append([]*w3Princ{w.princ("alpha"), w.princ("committee")}, others...)), Unscoped: []*w3Princ{p}})
+	}
+	for _, nm := range []string{"member0", "ir-member", "neofs-member"} {
+		sets = append(sets, w3SigSet{Name: nm + " with scope None", Unscoped: []*w3Princ{w.princ(nm)}})
+	}
+	// everybody relevant signs with scope CalledByEntry, but the call is
+	// nested in a foreign contract
+	if call.Via == "" {
+		sets = append(sets, w3SigSet{Name: "alphabet+committee+named with scope CalledByEntry, through a foreign contract",
+			Entry: w3Dedup(append([]*w3Princ{w.princ("alpha"), w.princ("committee"), w.princ("member0"), w.princ("ir-member"), w.princ("neofs-member")}, named...))})
 	}
 	// principals that are legitimate ELSEWHERE (another node of the netmap,
 	// another container owner, another NNS owner, another candidate, ...):
@@ -932,6 +973,9 @@ func (w *w3World) signerSets(call *w3Call, rng *rand.Rand, nRandom int) []w3SigS
 		}
 		for _, p := range s.Unscoped {
 			hs = append(hs, "none:"+p.Hash.StringLE())
+		}
+		for _, p := range s.Entry {
+			hs = append(hs, "entry:"+p.Hash.StringLE())
 		}
 		sort.Strings(hs)
 		k := strings.Join(hs, ",")
@@ -1102,9 +1146,19 @@ func (w *w3World) runCall(o *w3Out, v *w3Variant, call *w3Call, set w3SigSet, re
 	var r Result
 	var caller *util.Uint160
 	ps := set.Ps
+	switch {
+	case call.Via == "" && len(set.Entry) > 0:
+		fh := w.H["caller"]
+		caller = &fh
+		tx0 := w.E.NewUnsignedTx(w.T, fh, "call", h, v.M, call.Args)
+		tx := w.txE(ps, set.Entry, tx0.Script, w3SysFee, set.Unscoped...)
+		r = w.ResultOf(tx, w.E.AddNewBlock(w.T, tx))
+	}
 	switch call.Via {
 	case "":
-		r = w.sendU(ps, set.Unscoped, h, v.M, call.Args...)
+		if len(set.Entry) == 0 {
+			r = w.sendU(ps, set.Unscoped, h, v.M, call.Args...)
+		}
 	case "contract":
 		// through the forwarding helper contract: it is the calling script hash
 		fh := w.H["caller"]
@@ -1131,6 +1185,9 @@ func (w *w3World) runCall(o *w3Out, v *w3Variant, call *w3Call, set w3SigSet, re
 	}
 	for _, p := range set.Unscoped {
 		names = append(names, p.Name+"(scope None)")
+	}
+	for _, p := range set.Entry {
+		names = append(names, p.Name+"(scope CalledByEntry, via a foreign contract)")
 	}
 	ctx := w3Ctx{signers: hashes, caller: caller}
 	mkey := w3MKey(inst, v.M, v.Arity)
@@ -1290,7 +1347,7 @@ func (w *w3World) runSets(o *w3Out, v *w3Variant, req *w3Req, next func() *w3Cal
 		var hs []util.Uint160
 		ps := s.Ps
 		var caller *util.Uint160
-		if probe.Via == "contract" {
+		if probe.Via == "contract" || (probe.Via == "" && len(s.Entry) > 0) {
 			fh := w.H["caller"]
 			caller = &fh
 		} else if probe.Via != "" {
